@@ -227,6 +227,21 @@ def batch_oracle(ctx, lines, impl):
                 if not tag and is_bracket_case(c):
                     tag = "F28 "
                 verdicts[i] = tag + "inject_parameters(build()) = %r differs from to_string() = %r" % (unhexs(f[0])[:300], unhexs(f[1])[:300])
+    # the decidable premise of C11_inject_is_inline_when_separable (Spec/CrateSeam.v crate_sep), evaluated by the
+    # extracted model on the script of every inject case: where it is met, inject_parameters(build(s)) = to_string(s)
+    # is a theorem about this very statement; it is not met exactly where the crate tokenizer mis-reads a literal
+    # (F16 / F28) or raw text fuses with its neighbours
+    sel = [i for i, (c, o) in enumerate(zip(lines, impl)) if c.startswith("inject ") and len(o.split(" ")) == 2]
+    if sel:
+        outs = ctx.run_model(["sep " + lines[i].split(" ", 1)[1] for i in sel], "sep")
+        met = sum(1 for o in outs if "C1" in o.split(" "))
+        met_and_failed = [lines[i] for i, o in zip(sel, outs) if "C1" in o.split(" ") and verdicts[i] is not None]
+        notmet = [(i, o) for i, o in zip(sel, outs) if "C1" not in o.split(" ") and not o.startswith("PANIC")]
+        ctx.cov["inject_theorem_premise"] = {
+            "statements_evaluated": len(sel), "premise_met": met,
+            "premise_not_met": len(notmet),
+            "premise_not_met_and_identity_fails (known classes)": sum(1 for i, _ in notmet if verdicts[i] is not None),
+            "premise_met_but_identity_fails_on_the_implementation": len(met_and_failed)}
     ctx.cov["oracle_templates_checked"] = tchecked
     ctx.cov["oracle_inject_checked"] = ichecked
     return verdicts
